@@ -201,6 +201,16 @@ func (v *Vue) loadCachedWithFrontMatter(filename string) (map[string]any, []*htm
 		return nil, nil, err
 	}
 
+	// Cache the result only if the file did not change while it was being read: otherwise the
+	// content just parsed may be newer than currentModTime, and once the file is put back to
+	// its previous state (old content, old mtime) the validation above would hit this entry forever.
+	if !statOK {
+		return frontMatter, dom, nil
+	}
+	if info, err := fs.Stat(v.templateFS, filename); err != nil || !info.ModTime().Equal(currentModTime) {
+		return frontMatter, dom, nil
+	}
+
 	v.templateMu.Lock()
 	v.templateCache[filename] = &templateCacheEntry{
 		dom:         dom,
